@@ -149,8 +149,12 @@ class Env:
         self.Gated = GatedNotifierDelay
         self.on_delay_created = None
         self.robot_thread = None
+        # every name under which the library may reach the class (a refactoring of its imports must not blind the gate)
+        import robotpy_ext.misc as misc_pkg
         mr.NotifierDelay = GatedNotifierDelay
         sel.NotifierDelay = GatedNotifierDelay
+        misc_pkg.NotifierDelay = GatedNotifierDelay
+        self.RealNotifierDelay = Real
 
     def step_to(self, t_us):
         d = t_us - self.now()
